@@ -79,8 +79,14 @@ func BuildAction(r *rec.Rec) (of.Action, error) {
 		case "range":
 			a.ZoneRange(HeaderField(r.U32("zone_src"), r.Text("_zone_name")), of.NewNXRange(int(r.U("_zone_first")), int(r.U("_zone_last"))))
 		default:
-			a.ZoneImm(r.U16("zone_ofs_nbits"))
-			a.ZoneSrc = r.U32("zone_src")
+			if r.U32("zone_src") == 0 && r.U16("zone_ofs_nbits")%3 == 1 {
+				// an order-dependent history: the zone is first taken from a field and then replaced by an immediate
+				a.ZoneRange(HeaderField(0x0001d604, "NXM_NX_CT_ZONE"), of.NewNXRange(0, 15))
+				a.ZoneImm(r.U16("zone_ofs_nbits"))
+			} else {
+				a.ZoneImm(r.U16("zone_ofs_nbits"))
+				a.ZoneSrc = r.U32("zone_src")
+			}
 		}
 		a.Alg = r.U16("alg")
 		nested, err := BuildActions(r.List("actions"))
